@@ -328,6 +328,14 @@ JudgeOut judge(const json &plan)
 				std::string role = toks[ti][2].get<std::string>(), vt = toks[ti][3].get<std::string>();
 				std::vector<std::pair<std::string, json>> faults; // (kind, {key,value})
 				bool in_kv = toks[ti].size() > 5 && toks[ti][5].get<int>() != 0;
+				if (role == "n" && vt != "kv" && !in_kv && toks[ti][4].get<int>() == 0) {
+					// an option name written as a path into a declared section whose leaf does not exist
+					for (auto &so : plan["schemas"][0]["opts"])
+						if (so["t"] == "sec") {
+							faults.push_back({"undeclared_leaf_in_path", {{"key", "mut"}, {"value", json::array({ci, ti, "\"" + so["n"].get<std::string>() + "|nosuch_zz\""})}}});
+							break;
+						}
+				}
 				if (role == "n" && vt != "kv" && !in_kv) // an empty quoted string where an option name is expected
 					faults.push_back({"empty_name", {{"key", "mut"}, {"value", json::array({ci, ti, "\"\""})}}});
 				if (role == "n" && vt != "kv" && !in_kv) // in a free-form section an unknown name is a new key, not an error
